@@ -321,6 +321,18 @@ def sinks_of_path(p, param_types, F=None):
                 ilo, ihi, ti = ivx.of(idx, 'usize')
                 llo, lhi, tl = ivx.of(ln, 'usize')
                 hazard = not (ihi < llo)
+                # the index is the variable of `for i in 0..c.len()` and c is what is indexed
+                if idx[0] == 'elem' and absint.is_agg(idx[1]) and idx[1][1].startswith('std::ops::Range'):
+                    st_, en_ = absint.agg_field(idx[1], 'start'), absint.agg_field(idx[1], 'end')
+                    if en_ is not None and en_[0] == 'cast':
+                        en_ = en_[1]
+                    lnc = ln[1] if ln[0] == 'len' else None
+                    if lnc is not None and lnc[0] == 'upd':
+                        lnc = lnc[1]            # element stores do not change the length
+                    if st_ is not None and st_[0] == 'int' and st_[1] >= 0 and en_ is not None and en_[0] == 'len' and lnc is not None:
+                        from . import affine as _aff
+                        if en_[1] == lnc or _aff.canon_coll(en_[1]) == _aff.canon_coll(lnc):
+                            hazard = False
                 # relational guard: idx < len asserted on the path
                 from . import affine
 
